@@ -22,6 +22,15 @@
  *                               client session's socket
  *   rel=<k>|-                   the application releases the client session before the fate of datagram k (default: at the end)
  *   idle=0|1                    1: keep running past the server's idle timeout (300 s)
+ *   bm=0|1                      1: the client context uses COAP_BLOCK_USE_LIBCOAP (coap_context_set_block_mode): requests that
+ *                               need large-receive / observe tracking get an lg_crcv entry in coap_send()
+ *                               (the harness then seeds the session's token counter with coap_session_init_token(): tt=0 = not)
+ *   q letters                   C / N = Confirmable / Non-confirmable GET, O / M = the same with an Observe (register) option
+ *   pre=<K>:<I>:<S>,...         EARLIER client sessions against the SAME server context, one after the other, each from a
+ *                               fresh client context, loss-free, with one queued CON (token 01), released at quiescence and
+ *                               its server session reclaimed (idle timeout) before the next one starts: K / I = key /
+ *                               identity (hex, '=' = as the main client), S = server name (hex, '-' = none, '=' = as the
+ *                               main client).  Their segments use who = p (client) / r (server session).
  *
  * output: segments joined by " ; ", one per libcoap entry point exercised:
  *     <who>:<event>[:<args>]/<oracle results>><outputs>|<state>
@@ -31,10 +40,16 @@
  *   oracle  what GnuTLS answered inside (wrapped gnutls_* calls): env= hs= rec= snd= ck=
  *   outputs tx:<K>.<code>.<mid>.<tok> (PDU handed to coap_dtls_send) req:<tok>:<payload> rsp:<tok>:<code> nack:<reason>:<tok>
  *           ev:<name> bye alert cookie
- *   state   st=<session state>,tls=<0|1>,dq=<delay queue>,ca=<con_active>,if=<send queue nodes>  or  gone
+ *   state   st=<session state>,tls=<0|1>,dq=<delay queue>,ca=<con_active>,if=<send queue nodes>[,lg=<lg_crcv tokens, first
+ *           entry first, '.'-joined, '-' = none: client sessions with bm=1>]  or  gone
+ *   event   also newb (new with bm=1), lgx:<tokens left> (coap_block_check_lg_crcv_timeouts deleted lg_crcv entries)
  * then " | wire n=<datagrams> clear=<not a DTLS record, written outside GnuTLS, or carrying a queued payload> app=<ct23 records>
  *        prealert=<GnuTLS' version-less close_notify records> cleartext=<yes|no>"
  * and  " | hs c=<ok|fail|none> s=<ok|fail|none>"  (the handshake verdicts the oracle gave).
+ * and  " | cred <events>"  what libcoap's OWN credential callbacks answered GnuTLS on the server side, in order (trampolines
+ *      installed by wrapping gnutls_psk_set_server_credentials_function / gnutls_handshake_set_post_client_hello_function):
+ *      ses (first callback of a new server session)  pch:<server name hex|->:<ok|fail> (post_client_hello_gnutls_psk)
+ *      psk:<identity hex>:<key hex|e (empty)|fail> (psk_server_callback: the key libcoap hands GnuTLS for that identity)
  */
 #include "sim_core.h"
 #include <gnutls/gnutls.h>
@@ -81,14 +96,32 @@ static coap_session_t *srv_session(const coap_address_t *remote) {
   SESSIONS_ITER(g_ep->sessions, s, tmp) if (coap_address_equals(&s->addr_info.remote, remote)) return s;
   return NULL;
 }
+static char w_cli = 'c', w_srv = 's';      /* 'p' / 'r' while an earlier client (pre=) runs */
+static int g_bm, g_tt;
 static coap_session_t *who_session(char who) {
-  if (who == 'c') return g_cs_gone ? NULL : g_cs;
-  return srv_session(who == 's' ? &g_caddr : &g_oaddr);
+  if (who == w_cli) return g_cs_gone ? NULL : g_cs;
+  return srv_session(who == 't' ? &g_oaddr : &g_caddr);
 }
 static char session_who(const coap_session_t *s) {
-  if (s == g_cs || (s && s->type == COAP_SESSION_TYPE_CLIENT)) return 'c';
+  if (s == g_cs || (s && s->type == COAP_SESSION_TYPE_CLIENT)) return w_cli;
   if (s && coap_address_equals(&s->addr_info.remote, &g_oaddr)) return 't';
-  return 's';
+  return w_srv;
+}
+/* tokens of the lg_crcv entries, first entry first */
+static void lg_tokens(char *o, size_t cap, const coap_session_t *s) {
+  size_t l = 0;
+  o[0] = 0;
+  for (const coap_lg_crcv_t *g = s->lg_crcv; g && l + 20 < cap; g = g->next) {
+    char tk[20];
+    if (g->app_token) sim_tok(tk, g->app_token->s, g->app_token->length > 8 ? 8 : g->app_token->length); else strcpy(tk, "?");
+    l += (size_t)snprintf(o + l, cap - l, "%s%s", l ? "." : "", tk);
+  }
+  if (!l) strcpy(o, "-");
+}
+static unsigned lg_count(const coap_session_t *s) {
+  unsigned n = 0;
+  for (const coap_lg_crcv_t *g = s->lg_crcv; g; g = g->next) n++;
+  return n;
 }
 static unsigned inflight_of(coap_session_t *s) {
   unsigned n = 0;
@@ -96,12 +129,18 @@ static unsigned inflight_of(coap_session_t *s) {
   return n;
 }
 static void seg_close(void) {
-  char st[96];
+  char st[200];
   coap_session_t *s;
   if (!s_open) return;
   s = who_session(s_who);
-  if (s) snprintf(st, sizeof(st), "st=%d,tls=%d,dq=%u,ca=%u,if=%u", (int)s->state, s->tls ? 1 : 0, sim_delayq_len(s), s->con_active, inflight_of(s));
-  else strcpy(st, "gone");
+  if (s) {
+    snprintf(st, sizeof(st), "st=%d,tls=%d,dq=%u,ca=%u,if=%u", (int)s->state, s->tls ? 1 : 0, sim_delayq_len(s), s->con_active, inflight_of(s));
+    if (s->type == COAP_SESSION_TYPE_CLIENT && (s->block_mode & COAP_BLOCK_USE_LIBCOAP)) {
+      char lg[96];
+      lg_tokens(lg, sizeof(lg), s);
+      snprintf(st + strlen(st), sizeof(st) - strlen(st), ",lg=%s", lg);
+    }
+  } else strcpy(st, "gone");
   if (nsegs++) out_raw(" ; ", 3);
   out_raw(s_head, strlen(s_head));
   out_raw("/", 1); out_raw(s_orc[0] ? s_orc : "-", s_orc[0] ? strlen(s_orc) : 1);
@@ -126,7 +165,15 @@ static void coap_view(char *o, size_t cap, const uint8_t *b, size_t n, int with_
   if (n < 4 || (b[0] >> 6) != 1 || (tkl = b[0] & 15) > 8 || 4 + tkl > n) { snprintf(o, cap, "junk%zu", n); return; }
   sim_tok(tk, b + 4, tkl);
   pl[0] = 0;
-  for (i = 4 + tkl; with_payload && i < n; i++) if (b[i] == 0xFF) { sim_tok(pl, b + i + 1, n - i - 1 > 16 ? 16 : n - i - 1); break; }
+  for (i = 4 + tkl; with_payload && i < n;) {          /* walk the options to the payload marker */
+    size_t dl, ll;
+    if (b[i] == 0xFF) { sim_tok(pl, b + i + 1, n - i - 1 > 16 ? 16 : n - i - 1); break; }
+    dl = b[i] >> 4; ll = b[i] & 15; i++;
+    if (dl == 13) i += 1; else if (dl == 14) i += 2;
+    if (ll == 13) { if (i >= n) break; ll = (size_t)b[i] + 13; i += 1; }
+    else if (ll == 14) { if (i + 1 >= n) break; ll = (((size_t)b[i] << 8) | b[i + 1]) + 269; i += 2; }
+    i += ll;
+  }
   if (pl[0]) snprintf(o, cap, "%c.%d.%d.%s.%s", sim_kind[(b[0] >> 4) & 3], b[1], (b[2] << 8) | b[3], tk, pl);
   else snprintf(o, cap, "%c.%d.%d.%s", sim_kind[(b[0] >> 4) & 3], b[1], (b[2] << 8) | b[3], tk);
 }
@@ -223,7 +270,71 @@ int __wrap_gnutls_init(gnutls_session_t *g, unsigned int flags) {
   return r;
 }
 
+/* ------------------------------------------------------------------ libcoap's server-side credential callbacks, observed */
+static char cred_buf[4096];
+static unsigned srv_sess_no, cred_sess_no;
+static void cred_add(const char *fmt, ...) {
+  va_list ap; size_t l = strlen(cred_buf);
+  if (l + 200 >= sizeof(cred_buf)) return;
+  if (l) cred_buf[l++] = ' ';
+  va_start(ap, fmt); vsnprintf(cred_buf + l, sizeof(cred_buf) - l, fmt, ap); va_end(ap);
+}
+static void cred_session(void) { if (cred_sess_no != srv_sess_no) { cred_sess_no = srv_sess_no; cred_add("ses"); } }
+static void hexs(char *o, size_t cap, const uint8_t *b, size_t n, const char *empty) {
+  static const char hx[] = "0123456789abcdef";
+  size_t i;
+  if (!n) { snprintf(o, cap, "%s", empty); return; }
+  for (i = 0; i < n && 2 * i + 2 < cap; i++) { o[2 * i] = hx[b[i] >> 4]; o[2 * i + 1] = hx[b[i] & 15]; }
+  o[2 * i] = 0;
+}
+static gnutls_psk_server_credentials_function *real_psk_cb;
+static int tramp_psk(gnutls_session_t g, const char *identity, gnutls_datum_t *key) {
+  char ih[140], kh[140];
+  int r = real_psk_cb(g, identity, key);
+  cred_session();
+  hexs(ih, sizeof(ih), (const uint8_t *)(identity ? identity : ""), identity ? strlen(identity) : 0, "e");
+  if (r == 0) hexs(kh, sizeof(kh), key->data, key->size, "e"); else strcpy(kh, "fail");
+  cred_add("psk:%s:%s", ih, kh);
+  return r;
+}
+void __real_gnutls_psk_set_server_credentials_function(gnutls_psk_server_credentials_t cred, gnutls_psk_server_credentials_function *f);
+void __wrap_gnutls_psk_set_server_credentials_function(gnutls_psk_server_credentials_t cred, gnutls_psk_server_credentials_function *f) {
+  real_psk_cb = f;
+  __real_gnutls_psk_set_server_credentials_function(cred, tramp_psk);
+}
+static gnutls_handshake_simple_hook_func real_pch;
+static int tramp_pch(gnutls_session_t g) {
+  char name[260], nh[530];
+  size_t len = sizeof(name) - 1; unsigned type = 0;
+  int have = gnutls_server_name_get(g, name, &len, &type, 0) == GNUTLS_E_SUCCESS;
+  int r = real_pch(g);
+  cred_session();
+  if (have) hexs(nh, sizeof(nh), (const uint8_t *)name, len, "e"); else strcpy(nh, "-");
+  cred_add("pch:%s:%s", nh, r == GNUTLS_E_SUCCESS ? "ok" : "fail");
+  return r;
+}
+void __real_gnutls_handshake_set_post_client_hello_function(gnutls_session_t g, gnutls_handshake_simple_hook_func f);
+void __wrap_gnutls_handshake_set_post_client_hello_function(gnutls_session_t g, gnutls_handshake_simple_hook_func f) {
+  real_pch = f;
+  __real_gnutls_handshake_set_post_client_hello_function(g, tramp_pch);
+}
+
 /* ------------------------------------------------------------------ wrapped libcoap entry points */
+/* lg_crcv entries that time out are deleted silently inside the I/O loop: an event of its own for M */
+static void seg_begin(char who, const char *fmt, ...);
+int __real_coap_block_check_lg_crcv_timeouts(coap_session_t *s, coap_tick_t now, coap_tick_t *tim_rem);
+int __wrap_coap_block_check_lg_crcv_timeouts(coap_session_t *s, coap_tick_t now, coap_tick_t *tim_rem) {
+  unsigned before = lg_count(s);
+  int r = __real_coap_block_check_lg_crcv_timeouts(s, now, tim_rem);
+  if (lg_count(s) != before) {
+    char lg[96];
+    lg_tokens(lg, sizeof(lg), s);
+    seg_begin(session_who(s), "lgx:%s", lg);
+    seg_close();
+  }
+  return r;
+}
+
 ssize_t __real_coap_dtls_send(coap_session_t *s, const uint8_t *data, size_t len);
 ssize_t __wrap_coap_dtls_send(coap_session_t *s, const uint8_t *data, size_t len) {
   char v[96];
@@ -407,7 +518,7 @@ static int on_event(coap_session_t *s, const coap_event_t e) {
   case COAP_EVENT_DTLS_CONNECTED: OUT("ev:connected"); break;
   case COAP_EVENT_DTLS_ERROR: OUT("ev:error"); break;
   case COAP_EVENT_DTLS_RENEGOTIATE: OUT("ev:reneg"); break;
-  case COAP_EVENT_SERVER_SESSION_NEW: OUT("ev:new"); break;
+  case COAP_EVENT_SERVER_SESSION_NEW: srv_sess_no++; OUT("ev:new"); break;
   case COAP_EVENT_SERVER_SESSION_DEL:
     /* idle reclamation runs inside a prepare call: its own segment */
     if (!s_open || strcmp(s_head, "s:free")) seg_begin(session_who(s), "del");
@@ -441,7 +552,7 @@ static unsigned handled;      /* datagrams whose fate has been applied */
 
 static void do_release(void) {
   if (g_cs_gone || !g_cs) return;
-  seg_begin('c', "rel");
+  seg_begin(w_cli, "rel");
   coap_session_release(g_cs);
   if (!g_cs_gone) { /* still referenced by queue nodes: the application's pointer is dead all the same */ }
   seg_close();
@@ -484,7 +595,7 @@ static const char *ep_kind(const uint8_t *b, size_t n, const coap_address_t *src
 static void deliver(const sim_dgram_t *d) {
   /* to the DTLS endpoint? */
   if (g_ep && coap_address_equals(&g_ep->bind_addr, &d->dst)) {
-    seg_begin(coap_address_equals(&d->src, &g_oaddr) ? 't' : 's', "ep:%c:%s", coap_address_equals(&d->src, &g_oaddr) ? 'o' : 'c',
+    seg_begin(coap_address_equals(&d->src, &g_oaddr) ? 't' : w_srv, "ep:%c:%s", coap_address_equals(&d->src, &g_oaddr) ? 'o' : 'c',
               ep_kind(d->data, d->len, &d->src));
     sim_prng_fill = 0x40;
     sim_inject_endpoint(g_ep, &d->src, d->data, d->len);
@@ -492,7 +603,7 @@ static void deliver(const sim_dgram_t *d) {
     return;
   }
   if (!g_cs_gone && g_cs && coap_address_equals(&g_cs->addr_info.local, &d->dst)) {
-    seg_begin('c', "dg");
+    seg_begin(w_cli, "dg");
     sim_prng_fill = 0x80;
     sim_inject_session(g_cs, d->data, d->len);
     seg_close();
@@ -500,7 +611,9 @@ static void deliver(const sim_dgram_t *d) {
   }
   /* nobody there any more: lost */
 }
+static int in_pre;            /* an earlier client (pre=) is running: loss-free, no injections, no scripted release */
 static void before_fate(unsigned k) {
+  if (in_pre) return;
   for (int i = 0; i < ninj; i++) if (!injs[i].done && injs[i].k <= k) { injs[i].done = 1; do_inject(injs[i].what); }
   if (rel_at >= 0 && (unsigned)rel_at <= k) { rel_at = -1; do_release(); }
 }
@@ -510,24 +623,106 @@ static void flush_net(void) {
     char f;
     memmove(pending, pending + 1, sizeof(pending[0]) * (size_t)(--npending));
     before_fate(handled);
-    f = handled < strlen(fate) ? fate[handled] : 'd';
-    handled++;
+    if (in_pre) f = 'd';
+    else { f = handled < strlen(fate) ? fate[handled] : 'd'; handled++; }
     if (f == 'x') continue;
     deliver(d);
     if (f == '2') deliver(d);
   }
 }
 
+/* the I/O loop: deliver what is pending, run both contexts' timers, advance the virtual clock to the next deadline */
+static void run_loop(int idle, int until_srv_gone) {
+  coap_tick_t limit = sim_now + 400000;
+  int bumped = 0;
+  for (int i = 0; i < 4000; i++) {
+    unsigned wc = 0, ws, wait;
+    flush_net();
+    if (g_cli) { sim_prng_fill = 0x80; wc = coap_io_prepare_epoll(g_cli, sim_now); seg_close(); }
+    sim_prng_fill = 0x40; ws = coap_io_prepare_epoll(g_srv, sim_now); seg_close();
+    if (npending) continue;
+    if (until_srv_gone && !srv_session(&g_caddr)) break;
+    wait = wc && (!ws || wc < ws) ? wc : ws;
+    if (!wait && until_srv_gone && !bumped) { bumped = 1; sim_now += 301000; continue; }   /* no timer armed for it: past the idle timeout */
+    if (!wait) break;
+    if (wait > 100000 && !idle) break;
+    if (sim_now > limit) break;
+    sim_now += wait;
+  }
+}
+
+/* a client context with one DTLS client session (c_id / c_key / c_sni as set) and the requests `qs` queued at once */
+static void start_client(const char *qs) {
+  coap_dtls_cpsk_t cp;
+  coap_address_t sa;
+  sim_prng_fill = 0x80;
+  g_cli = coap_new_context(NULL);
+  coap_register_event_handler(g_cli, on_event);
+  coap_register_nack_handler(g_cli, on_nack);
+  coap_register_response_handler(g_cli, on_response);
+  if (g_bm) coap_context_set_block_mode(g_cli, COAP_BLOCK_USE_LIBCOAP);
+  memset(&cp, 0, sizeof(cp));
+  cp.version = COAP_DTLS_CPSK_SETUP_VERSION;
+  cp.psk_info.identity.s = c_id; cp.psk_info.identity.length = c_idl;
+  cp.psk_info.key.s = c_key; cp.psk_info.key.length = c_keyl;
+  if (ih_mode) cp.validate_ih_call_back = cb_ih;
+  if (have_sni) cp.client_sni = c_sni;
+  sim_addr(&sa, ntohs(g_ep->bind_addr.addr.sin.sin_port));
+  coap_address_init(&g_caddr);
+  g_cs = NULL; g_cs_gone = 0; nq = 0;
+  seg_begin(w_cli, g_bm ? "newb" : "new");
+  g_cs = coap_new_client_session_psk2(g_cli, NULL, &sa, COAP_PROTO_DTLS, &cp);
+  if (g_cs) {
+    coap_address_copy(&g_caddr, &g_cs->addr_info.local);
+    sim_sess_id(g_cs);
+    /* block mode numbers its own "state tokens" from session->tx_token (0 unless the application seeds it) and ALSO matches a
+       response whose token VALUE equals such a number: keep libcoap's numbers away from the harness' one-byte tokens 01 02 03,
+       as an application that picks its own tokens has to (observation in design/C19.md) */
+    if (g_bm && g_tt) { static const uint8_t seed[4] = {0xd0, 0, 0, 0}; coap_session_init_token(g_cs, sizeof(seed), seed); }
+  } else {
+    g_cs_gone = 1;
+    snprintf(s_head, sizeof(s_head), "%c:new:fail", w_cli);
+  }
+  seg_close();
+  if (!g_cs) return;
+  nq = (int)strlen(qs);
+  for (int i = 0; i < nq; i++) {
+    uint8_t tok[1] = {(uint8_t)(i + 1)};
+    uint8_t obuf[4];
+    int con = qs[i] == 'C' || qs[i] == 'O', obs = qs[i] == 'O' || qs[i] == 'M';
+    coap_pdu_t *p;
+    coap_mid_t mid = coap_new_message_id(g_cs);
+    memcpy(q_payload[i], "PAYLOAD0", 9); q_payload[i][7] = (uint8_t)('1' + i);
+    p = sim_make_pdu(g_cs, con ? COAP_MESSAGE_CON : COAP_MESSAGE_NON, COAP_REQUEST_CODE_GET, mid, tok, 1, NULL, 0);
+    if (obs) coap_add_option(p, COAP_OPTION_OBSERVE, coap_encode_var_safe(obuf, sizeof(obuf), COAP_OBSERVE_ESTABLISH), obuf);
+    coap_add_option(p, COAP_OPTION_URI_PATH, 1, (const uint8_t *)"r");
+    coap_add_data(p, 8, q_payload[i]);
+    seg_begin(w_cli, "send:%c%d:%02x", qs[i], (int)(uint16_t)mid, tok[0]);
+    if (coap_send(g_cs, p) == COAP_INVALID_MID) OUT("sendfail");
+    seg_close();
+  }
+}
+static void free_client(void) {
+  seg_begin(w_cli, "free");
+  coap_free_context(g_cli);
+  g_cli = NULL; g_cs_gone = 1;
+  seg_close();
+}
+
+typedef struct { char k[130], i[130], s[130]; } pre_t;
+
 static void step(char *line) {
   char *w[40];
   int n = h_words(line, w, 40);
   char qs[8] = "";
   int idle = 0;
+  pre_t pres[4]; int npre = 0;
+  uint8_t m_id[64], m_key[64]; size_t m_idl, m_keyl; char m_sni[64]; int m_have_sni;
   if (n < 1 || strcmp(w[0], "dtls")) { printf("bad-op"); return; }
   /* defaults */
   memcpy(c_id, "id", 3); c_idl = 2; memcpy(c_key, "key", 4); c_keyl = 3; memcpy(s_key, "key", 4); s_keyl = 3;
   have_hint = 0; s_hintl = 0; have_keytab = 0; nkeytab = 0; have_snitab = 0; nsnitab = 0; ih_mode = 0; nih = 0; have_sni = 0;
-  fate[0] = 0; ninj = 0; rel_at = -1; nq = 0;
+  fate[0] = 0; ninj = 0; rel_at = -1; nq = 0; g_bm = 0; g_tt = 1; c_sni[0] = 0;
   for (int i = 1; i < n; i++) {
     char *k = w[i], *v = strchr(w[i], '=');
     int ok = 1;
@@ -551,7 +746,7 @@ static void step(char *line) {
       }
     }
     else if (!strcmp(k, "sni")) { size_t l; have_sni = strcmp(v, "-") != 0; ok = unhex_into(v, (uint8_t *)c_sni, sizeof(c_sni), &l); }
-    else if (!strcmp(k, "q")) { if (strlen(v) > 3 || strspn(v, "CN") != strlen(v)) ok = 0; else strcpy(qs, v); }
+    else if (!strcmp(k, "q")) { if (strlen(v) > 3 || strspn(v, "CNOM") != strlen(v)) ok = 0; else strcpy(qs, v); }
     else if (!strcmp(k, "f")) { if (strlen(v) >= sizeof(fate) || strspn(v, "dx2") != strlen(v)) ok = 0; else strcpy(fate, v); }
     else if (!strcmp(k, "inj")) {
       if (strcmp(v, "-")) for (char *e = strtok(v, ","); e; e = strtok(NULL, ",")) {
@@ -562,8 +757,26 @@ static void step(char *line) {
     }
     else if (!strcmp(k, "rel")) { if (strcmp(v, "-")) { char *end; rel_at = strtol(v, &end, 10); if (*end || rel_at < 0) ok = 0; } }
     else if (!strcmp(k, "idle")) idle = atoi(v);
+    else if (!strcmp(k, "bm")) { if (!strcmp(v, "1")) g_bm = 1; else if (!strcmp(v, "0")) g_bm = 0; else ok = 0; }
+    else if (!strcmp(k, "tt")) g_tt = atoi(v);       /* tt=0: do NOT seed session->tx_token in block mode (replay of an observation only) */
+    else if (!strcmp(k, "pre")) {
+      if (strcmp(v, "-")) for (char *e = strtok(v, ","); e; e = strtok(NULL, ",")) {
+        char *p1 = strchr(e, ':'), *p2 = p1 ? strchr(p1 + 1, ':') : NULL;
+        if (!p1 || !p2 || npre >= 4) { ok = 0; break; }
+        *p1++ = 0; *p2++ = 0;
+        if (strlen(e) >= sizeof(pres[0].k) || strlen(p1) >= sizeof(pres[0].i) || strlen(p2) >= sizeof(pres[0].s)) { ok = 0; break; }
+        strcpy(pres[npre].k, e); strcpy(pres[npre].i, p1); strcpy(pres[npre].s, p2); npre++;
+      }
+    }
     else ok = 0;
     if (!ok) { printf("bad-op"); return; }
+  }
+  /* the earlier clients' credentials must be well-formed before anything is set up */
+  for (int k = 0; k < npre; k++) {
+    uint8_t tmp[64]; size_t l;
+    if ((strcmp(pres[k].k, "=") && !unhex_into(pres[k].k, tmp, sizeof(tmp), &l)) ||
+        (strcmp(pres[k].i, "=") && !unhex_into(pres[k].i, tmp, sizeof(tmp), &l)) ||
+        (strcmp(pres[k].s, "=") && strcmp(pres[k].s, "-") && !unhex_into(pres[k].s, tmp, sizeof(tmp), &l))) { printf("bad-op"); return; }
   }
 
   sim_reset();
@@ -571,9 +784,12 @@ static void step(char *line) {
   seg_len = 0; nsegs = 0; s_open = 0; if (seg_buf) seg_buf[0] = 0;
   npending = 0; handled = 0; w_n = w_clear = w_app = w_pre = 0; in_gnutls = 0;
   hs_verdict[0] = hs_verdict[1] = 'n';
-  g_cs = NULL; g_cs_gone = 0; g_ep = NULL;
+  g_cs = NULL; g_cs_gone = 0; g_ep = NULL; g_cli = NULL;
+  cred_buf[0] = 0; srv_sess_no = 0; cred_sess_no = 0;
+  w_cli = 'c'; w_srv = 's'; in_pre = 0;
   sim_tx_hook = on_tx;
   sim_tx_logger = tx_logger;
+  sim_addr(&g_oaddr, 1);     /* port 1: nobody; the address an outsider injects from */
 
   /* ---- server */
   sim_prng_fill = 0x40;
@@ -600,69 +816,47 @@ static void step(char *line) {
     coap_register_request_handler(r, COAP_REQUEST_GET, hnd_get);
     coap_add_resource(g_srv, r);
   }
-  /* ---- client */
-  sim_prng_fill = 0x80;
-  g_cli = coap_new_context(NULL);
-  sim_ctxs[sim_nctx++] = g_cli;
-  coap_register_event_handler(g_cli, on_event);
-  coap_register_nack_handler(g_cli, on_nack);
-  coap_register_response_handler(g_cli, on_response);
-  {
-    coap_dtls_cpsk_t cp;
-    coap_address_t sa;
-    memset(&cp, 0, sizeof(cp));
-    cp.version = COAP_DTLS_CPSK_SETUP_VERSION;
-    cp.psk_info.identity.s = c_id; cp.psk_info.identity.length = c_idl;
-    cp.psk_info.key.s = c_key; cp.psk_info.key.length = c_keyl;
-    if (ih_mode) cp.validate_ih_call_back = cb_ih;
-    if (have_sni) cp.client_sni = c_sni;
-    sim_addr(&sa, ntohs(g_ep->bind_addr.addr.sin.sin_port));
-    coap_address_init(&g_caddr);
-    sim_addr(&g_oaddr, 1);     /* port 1: nobody; the address an outsider injects from */
-    seg_begin('c', "new");
-    g_cs = coap_new_client_session_psk2(g_cli, NULL, &sa, COAP_PROTO_DTLS, &cp);
+  /* ---- earlier clients against the same server context (pre=) */
+  memcpy(m_id, c_id, sizeof(m_id)); m_idl = c_idl; memcpy(m_key, c_key, sizeof(m_key)); m_keyl = c_keyl;
+  memcpy(m_sni, c_sni, sizeof(m_sni)); m_have_sni = have_sni;
+  for (int k = 0; k < npre; k++) {
+    size_t l;
+    if (strcmp(pres[k].k, "=")) unhex_into(pres[k].k, c_key, sizeof(c_key), &c_keyl);
+    if (strcmp(pres[k].i, "=")) unhex_into(pres[k].i, c_id, sizeof(c_id), &c_idl);
+    if (!strcmp(pres[k].s, "-")) have_sni = 0;
+    else if (strcmp(pres[k].s, "=")) { have_sni = 1; unhex_into(pres[k].s, (uint8_t *)c_sni, sizeof(c_sni), &l); }
+    w_cli = 'p'; w_srv = 'r'; in_pre = 1;
+    start_client("C");
     if (g_cs) {
-      coap_address_copy(&g_caddr, &g_cs->addr_info.local);
-      sim_sess_id(g_cs);
-    } else {
-      g_cs_gone = 1;
-      strcpy(s_head, "c:new:fail");
+      run_loop(0, 0);
+      do_release();
     }
+    free_client();
+    run_loop(1, 1);           /* … until the server has reclaimed the session it made for this client */
     seg_close();
-  }
-  if (g_cs) {
-    nq = (int)strlen(qs);
-    for (int i = 0; i < nq; i++) {
-      uint8_t tok[1] = {(uint8_t)(i + 1)};
-      coap_pdu_t *p;
-      coap_mid_t mid = coap_new_message_id(g_cs);
-      memcpy(q_payload[i], "PAYLOAD0", 9); q_payload[i][7] = (uint8_t)('1' + i);
-      p = sim_make_pdu(g_cs, qs[i] == 'C' ? COAP_MESSAGE_CON : COAP_MESSAGE_NON, COAP_REQUEST_CODE_GET, mid, tok, 1, NULL, 0);
-      coap_add_option(p, COAP_OPTION_URI_PATH, 1, (const uint8_t *)"r");
-      coap_add_data(p, 8, q_payload[i]);
-      seg_begin('c', "send:%c%d:%02x", qs[i], (int)(uint16_t)mid, tok[0]);
-      if (coap_send(g_cs, p) == COAP_INVALID_MID) OUT("sendfail");
+    if (srv_session(&g_caddr)) {
+      /* a session that never got past the ClientHello has no timer: coap_endpoint_get_session() reclaims it ("Incomplete session
+         timed out") when the next datagram from an unknown peer arrives — a 4-byte stray from the outsider's address */
+      static const uint8_t stray[4] = {0x16, 0xfe, 0xfd, 0};
+      seg_begin('t', "ep:o:short");
+      sim_prng_fill = 0x40;
+      sim_inject_endpoint(g_ep, &g_oaddr, stray, sizeof(stray));
       seg_close();
     }
-    for (int i = 0; i < 4000; i++) {
-      unsigned wc, ws, wait;
-      flush_net();
-      sim_prng_fill = 0x80; wc = coap_io_prepare_epoll(g_cli, sim_now); seg_close();
-      sim_prng_fill = 0x40; ws = coap_io_prepare_epoll(g_srv, sim_now); seg_close();
-      if (npending) continue;
-      wait = wc && (!ws || wc < ws) ? wc : ws;
-      if (!wait) break;
-      if (wait > 100000 && !idle) break;
-      if (sim_now > 400000) break;
-      sim_now += wait;
-    }
+    memcpy(c_id, m_id, sizeof(c_id)); c_idl = m_idl; memcpy(c_key, m_key, sizeof(c_key)); c_keyl = m_keyl;
+    memcpy(c_sni, m_sni, sizeof(c_sni)); have_sni = m_have_sni;
+  }
+  w_cli = 'c'; w_srv = 's'; in_pre = 0;
+  hs_verdict[0] = hs_verdict[1] = 'n';
+  /* ---- the client */
+  start_client(qs);
+  if (g_cs) {
+    run_loop(idle, 0);
     before_fate(1u << 30);          /* injections / release that never got their turn: now, at quiescence */
     flush_net();
     do_release();
   }
-  seg_begin('c', "free");
-  coap_free_context(g_cli);
-  seg_close();
+  free_client();
   seg_begin('s', "free");
   g_ep = NULL;
   coap_free_context(g_srv);
@@ -674,6 +868,7 @@ static void step(char *line) {
   printf(" | wire n=%u clear=%u app=%u prealert=%u cleartext=%s | hs c=%s s=%s", w_n, w_clear, w_app, w_pre, w_clear ? "yes" : "no",
          hs_verdict[0] == 'o' ? "ok" : hs_verdict[0] == 'f' ? "fail" : "none",
          hs_verdict[1] == 'o' ? "ok" : hs_verdict[1] == 'f' ? "fail" : "none");
+  printf(" | cred %s", cred_buf[0] ? cred_buf : "-");
 }
 
 int main(void) {
